@@ -55,7 +55,7 @@ PLAN = dict(
                  "schedule and uses the low 32 bits of the library's own twiddle table; the hook only observes",
                  "default 30-bit prime set only"],
     quick=_jobs("quick"), thorough=_jobs("thorough"),
-    fuzz=desc_fuzz("C04", fix=dict(k=(0, 10)), skip_subs=['ntt_search']),
+    fuzz=desc_fuzz("C04", fix=dict(k=(0, 10)), skip_subs=['ntt_search'], runs=40000),
     required_classes=dict(all=["kern:" + k for k in KERNS] + ["impl:ref", "impl:avx2"] + ELLC + ["ell:3..9998"]
                           + ["operands:" + o for o in OPFAM] + ["h:%d" % h for h in range(1, 64)]
                           + ["split:low,low", "split:high,high", "split:low,high", "split:high,low"]
